@@ -424,8 +424,9 @@ def run_c09(case, fail):
     # 'known' samples inside some strategies: their sentinel must not be mistaken for a class)
     cand = None
     unl_ = np.where(np.isnan(y))[0]
-    if case["t"] % 3 == 1 and len(unl_) >= 3:
-        cand = np.sort(np.random.RandomState(case["dseed"] + 9).choice(unl_, len(unl_) - 1 - (len(unl_) > 4), replace=False))
+    if case["t"] % 3 != 0 and len(unl_) >= 3:
+        k_ = len(unl_) - 1 if case["t"] % 3 == 1 else max(2, len(unl_) // 2)
+        cand = np.sort(np.random.RandomState(case["dseed"] + 9).choice(unl_, k_, replace=False))
     for tag, ml, cl, dt in ENCODINGS:
         if dt is object:
             yy = np.array([None if np.isnan(v) else cl[int(v)] for v in y], dtype=object)
